@@ -117,6 +117,39 @@ fn main() {
         out.flush().unwrap();
         return;
     }
+    if a[3] == "color" || a[3] == "color-thorough" {
+        // float colour conversions under this build's float backend (rem_euclid!), in the record format of TV_Color (C16)
+        use re::math::color::{hsl, rgb, Color3f, Hsl};
+        let mut rng = Rng(seed ^ 0xC0102);
+        let hx = |x: f32| format!("{:08x}", x.to_bits());
+        let mut cases: Vec<[f32; 3]> = vec![];
+        let n = if a[3] == "color" { 12u32 } else { 60 };
+        for r in 0..=n { for g in 0..=n { for b in 0..=n { cases.push([r, g, b].map(|v| v as f32 / n as f32)); } } }
+        for i in 0..(if a[3] == "color" { 6_000 } else { 200_000 }) {
+            let mut c = [0f32; 3];
+            for v in c.iter_mut() {
+                *v = match rng.next() % 8 { 0 => 0.0, 1 => 1.0, 2 => f32::from_bits(0x3f7fffff), 3 => f32::from_bits((rng.next() % 64) as u32), _ => rng.unit() as f32 };
+            }
+            if i % 9 == 0 { c[1] = c[0]; c[2] = c[0]; }
+            cases.push(c);
+        }
+        for (i, c) in cases.iter().enumerate() {
+            let k = format!("{be}-col{i}");
+            let col: Color3f = rgb(c[0], c[1], c[2]);
+            let (p, h, back) = match guard(|| { let h = col.to_hsl(); (h, h.to_rgb()) }) {
+                Some((h, b)) => (0, h.0.map(sc), b.0.map(sc)),
+                None => (1, [0; 3], [0; 3]),
+            };
+            writeln!(out, "{}", json!({"k": k, "op": "rtf", "be": be, "c": c.map(hx), "panic": p, "hsl": h, "back": back, "rgb": col.0.map(sc),
+                "gray": (c[0] == c[1] && c[1] == c[2]) as u8})).unwrap();
+            if i % 3 == 0 {
+                let hc: Color3f<Hsl> = hsl(c[0], c[1], c[2]);
+                let (p, r) = match guard(|| hc.to_rgb()) { Some(r) => (0, r.0.map(sc)), None => (1, [0; 3]) };
+                writeln!(out, "{}", json!({"k": format!("{k}h"), "op": "hslf", "be": be, "c": c.map(hx), "panic": p, "rgb": r, "hsl": hc.0.map(sc)})).unwrap();
+            }
+        }
+        return;
+    }
     #[cfg(any(feature = "libm", feature = "mm", feature = "std"))]
     if a[3] == "anglewrap" || a[3] == "anglewrap-thorough" {
         // Angle::wrap under this build's float backend, in the record format of TV_Angle (C18)
